@@ -392,7 +392,9 @@ def run_cell(h, cell, tier, seed, budget_s):
                     out_c, fails, _, _ = _concrete_run(h, cell, inp_exact, model=m)
                 except Abort:
                     return
-                diff = compare_trees(evaluate(ctx.out, m), out_c)
+                cmp = getattr(h, "comparable", None)
+                so, co = (cmp(ctx.out, cell), cmp(out_c, cell)) if cmp else (ctx.out, out_c)
+                diff = compare_trees(evaluate(so, m), co)
                 nval[0] += 1
                 key = json.dumps(_js(inp_exact), sort_keys=True)
                 if h.nontrivial(inp_exact, out_c, cell):
@@ -428,24 +430,27 @@ def run_cell(h, cell, tier, seed, budget_s):
             res["status"] = "incomplete"
             res["notes"].append(er.reason)
         # --- violations: replay each distinct (label) on the real stack
-        per_label = {}
+        groups = {}
         for v, ctx, rec in er.violations:
-            per_label.setdefault(v.label, []).append((v, ctx))
-        for label, lst in per_label.items():
+            try:
+                sig = h.signature(v.label, to_float(evaluate(ctx.inputs, v.model)), cell)
+            except BaseException:  # noqa
+                sig = v.label
+            groups.setdefault((v.label, sig), []).append((v, ctx))
+        label_ok = {}
+        for (label, sig), lst in groups.items():
             confirmed = 0
-            tried = 0
-            for v, ctx in lst:
-                if tried >= 6 or confirmed >= 3:
-                    break
-                tried += 1
+            for v, ctx in lst[:4]:
                 r = _replay_violation(h, cell, v, ctx)
                 if r["reproduced"]:
                     confirmed += 1
                     r["paths_violating"] = len(lst)
                     res["violations"].append(r)
-                else:
-                    res["unreproduced"].append(r)
-            if confirmed == 0 and tried:
+                    break
+                res["unreproduced"].append(r)
+            label_ok[label] = label_ok.get(label, 0) + confirmed
+        for label, n in label_ok.items():
+            if n == 0:
                 res["status"] = "harness-error"
                 res["notes"].append("counterexample for %s did not reproduce on the real stack" % label)
         # --- vacuity twin: prove(False) at every assertion site must be reported on the first path
